@@ -222,6 +222,25 @@ def settleWith (dec : Cfg → Bool → Nat → RcAns → Pend → Outcome) (cfg 
 
 def settle := settleWith classify
 
+/-! ## A log notification that arrives while a head is being processed -/
+
+/-- The header goroutine takes `pendingMu` before its loop over `w.pending` (watcher.go:425) and releases it after the loop and
+the `DisablePoller` test (watcher.go:557); the log goroutine takes the same mutex around `w.pending[key] = …; EnablePoller()`
+(watcher.go:370-376). A log notification that arrives while the scan is waiting for a receipt is therefore inserted when the
+scan has ended: the head event first, then the log event. (The tie holds a receipt answer back at the node, delivers a log,
+and observes that the log goroutine parks on the mutex: op `race`.) -/
+def headThenLog (cfg : Cfg) (st : St) (W : Nat) (rc : Bytes → RcAns) (ev : Event) (blockTime : Nat) : St × Option HeadRes :=
+  (onLog cfg (settle cfg st W rc).1 ev blockTime, (settle cfg st W rc).2)
+
+/-- NOT the code: the variant in which the scan copies `w.pending` under the lock, works on the copy without the lock and
+finally assigns the copy back (`w.pending = copy`). The entry inserted in between is overwritten (and the poller is switched
+off if the copy ended up empty). Kept only for the negation witness `c10_snapshot_writeback_witness`. -/
+def headSnapshotWriteBack (cfg : Cfg) (st : St) (W : Nat) (rc : Bytes → RcAns) (ev : Event) (blockTime : Nat) : St × Option HeadRes :=
+  if st.enabled && decide (W > st.last) then
+    let r := processHead cfg false W rc st.pending
+    ({ pending := r.pending, enabled := !r.pending.isEmpty, last := W }, some r)
+  else (onLog cfg st ev blockTime, none)
+
 /-! ## Re-observation (by_transaction.go, watcher.go:225-312) -/
 
 /-- A receipt log as the code sees it; `parse` is the (trusted) ABI decoder's verdict on it. -/
@@ -307,6 +326,14 @@ def reobserve (cfg : Cfg) (bnAns : Option Nat) (evt : EvtRes) : List (Msg × ReD
 
 def reobsForwarded (cfg : Cfg) (bnAns : Option Nat) (evt : EvtRes) : List Msg :=
   ((reobserve cfg bnAns evt).filter (fun x => x.2 = .fwd)).map (·.1)
+
+/-- watcher.go `getBlockNumber`: `w.ethConn.getBlock(ctx, logger, nil, false)` — the poller's own method, so the head the
+re-observation path reads is requested under the tag the poller uses: "finalized" on a chain read at finalized height,
+"latest" otherwise (never a raw `eth_blockNumber`, which is always the latest head). -/
+def reobsHeadTag (cfg : Cfg) : String := blockTag none cfg.useFinalized false
+
+/-- The head served under that tag by a node whose latest / finalized heads are `lat` / `fin`. -/
+def reobsHead (cfg : Cfg) (lat fin : Nat) : Nat := if cfg.useFinalized then fin else lat
 
 /-! ## What go-ethereum's client hands the watcher for a node answer (trusted base, observed by the tie) -/
 
